@@ -305,6 +305,20 @@ func DependsOn(v ssa.Value, pred func(ssa.Value) bool) bool {
 				return true
 			}
 		}
+		if pr, ok := v.(*ssa.Parameter); ok {
+			// a helper that is only called statically: what any of its callers passes
+			fn := pr.Parent()
+			for i, fp := range fn.Params {
+				if fp != pr {
+					continue
+				}
+				for _, cs := range StaticCallSites(fn) {
+					if i < len(cs.Common().Args) && walk(cs.Common().Args[i], depth+1) {
+						return true
+					}
+				}
+			}
+		}
 		if u, ok := v.(*ssa.UnOp); ok && u.Op == token.MUL {
 			// multi-store cell: any stored value
 			if al, ok := cellOf(u.X).(*ssa.Alloc); ok {
@@ -669,4 +683,26 @@ func Bind(b Binding) func() {
 	}
 	activeBinding = n
 	return func() { activeBinding = prev }
+}
+
+// BoundMethod returns the method behind a method value (`x.m` used as a func value, which
+// go/ssa represents as a closure over a synthetic "bound method wrapper"); nil otherwise.
+func BoundMethod(v ssa.Value) *ssa.Function {
+	mc, ok := v.(*ssa.MakeClosure)
+	if !ok {
+		return nil
+	}
+	w, ok := mc.Fn.(*ssa.Function)
+	if !ok || !strings.HasPrefix(w.Synthetic, "bound method wrapper") {
+		return nil
+	}
+	var out *ssa.Function
+	Instrs(w, func(in ssa.Instruction) {
+		if c, ok := in.(ssa.CallInstruction); ok {
+			if f := c.Common().StaticCallee(); f != nil {
+				out = f
+			}
+		}
+	})
+	return out
 }
